@@ -848,6 +848,42 @@ func (l *vC01Lab) install(kind, target string) bool {
 				}
 			}
 		}
+	case "alter-a-sig-alg", "sig-alg": // the genuine RRSIGs' algorithm octet rewritten to one no validator implements; data altered / left alone
+		f = func(s *vC01LServer, z *vC01LZone, q dns.Question, m *dns.Msg) {
+			if z != tz || q.Qtype == dns.TypeDNSKEY || q.Qtype == dns.TypeDS || strings.HasPrefix(q.Name, "ns.") {
+				return
+			}
+			if kind == "alter-a-sig-alg" {
+				forgeA(m)
+			}
+			for _, sec := range [][]dns.RR{m.Answer, m.Ns} {
+				for i, rr := range sec {
+					if sg, ok := rr.(*dns.RRSIG); ok {
+						c := dns.Copy(sg).(*dns.RRSIG)
+						c.Algorithm = dns.RSAMD5
+						sec[i] = c
+					}
+				}
+			}
+		}
+	case "ds-sig-alg": // downgrade: the signature over the target's DS (or over its denial) claims an unimplemented algorithm; below the cut data is forged, unsigned
+		f = func(s *vC01LServer, z *vC01LZone, q dns.Question, m *dns.Msg) {
+			if z != tz {
+				for _, sec := range [][]dns.RR{m.Answer, m.Ns} {
+					for i, rr := range sec {
+						if sg, ok := rr.(*dns.RRSIG); ok && strings.EqualFold(sg.Hdr.Name, target) && (sg.TypeCovered == dns.TypeDS || sg.TypeCovered == dns.TypeNSEC) {
+							c := dns.Copy(sg).(*dns.RRSIG)
+							c.Algorithm = dns.RSAMD5
+							sec[i] = c
+						}
+					}
+				}
+				return
+			}
+			if q.Qtype != dns.TypeDNSKEY && forgeA(m) {
+				m.Answer = vC01StripSigs(m.Answer)
+			}
+		}
 	case "forged-untrusted-key": // data rewritten and signed by a key that only claims the zone's name
 		ak := l.attacker(target, 256)
 		f = func(s *vC01LServer, z *vC01LZone, q dns.Question, m *dns.Msg) {
@@ -1138,7 +1174,8 @@ func TestVerifC01Lab(t *testing.T) {
 	topos := []string{"separate", "separate", "insecure-child", "wrongds", "shared-secure", "shared-secure", "shared-insecure", "shared-island", "nsec3", "nsec3-optout"}
 	tampers := []string{"none", "none", "strip-sigs", "alter-a", "expired", "signer-name", "bitflip", "labels", "forged-untrusted-key", "dnskey-extra-key",
 		"ds-swap", "ds-drop", "nsec-drop", "nxdomain-forged", "inject-foreign", "island-hijack", "no-anchor", "wildcard-replay", "wildcard-replay-decoy", "parent-denial-nxdomain", "parent-denial-nodata",
-		"wildcard-replay-foreign-nsec", "wildcard-replay-parent-nsec", "wildcard-replay-foreign-nsec3", "wildcard-replay-straddling-nsec"}
+		"wildcard-replay-foreign-nsec", "wildcard-replay-parent-nsec", "wildcard-replay-foreign-nsec3", "wildcard-replay-straddling-nsec",
+		"alter-a-sig-alg", "sig-alg", "ds-sig-alg"}
 	run := func(topo, tam, target string, q tq, origin string) {
 		lab, ok := vC01BuildLab(t, r, topo)
 		if !ok {
@@ -1253,7 +1290,7 @@ func TestVerifC01Lab(t *testing.T) {
 		if topo == "shared-island" {
 			target = "sub.zone.tld."
 		}
-		if r.Intn(5) == 0 && topo != "shared-island" && tam != "ds-swap" && tam != "ds-drop" {
+		if r.Intn(5) == 0 && topo != "shared-island" && tam != "ds-swap" && tam != "ds-drop" && tam != "ds-sig-alg" {
 			target = "tld."
 		}
 		if topo == "nsec3-optout" {
@@ -1276,7 +1313,7 @@ func TestVerifC01Lab(t *testing.T) {
 		if forcedQ < 0 && tam == "parent-denial-nxdomain" {
 			q = qs[0]
 		}
-		if forcedQ < 0 && (tam == "nxdomain-forged" || tam == "alter-a" || tam == "forged-untrusted-key" || tam == "dnskey-extra-key" || tam == "island-hijack" || tam == "ds-swap" || tam == "ds-drop" || tam == "inject-foreign" || tam == "expired") {
+		if forcedQ < 0 && (tam == "nxdomain-forged" || tam == "alter-a" || tam == "forged-untrusted-key" || tam == "dnskey-extra-key" || tam == "island-hijack" || tam == "ds-swap" || tam == "ds-drop" || tam == "inject-foreign" || tam == "expired" || tam == "alter-a-sig-alg" || tam == "ds-sig-alg") {
 			q = qs[0]
 		}
 		run(topo, tam, target, q, "")
